@@ -625,11 +625,15 @@ func finish(dir string, parts []part) int {
 	}
 
 	// Replay files.
-	_ = os.MkdirAll(filepath.Join(dir, "replay"), 0o755)
+	replayDir := filepath.Join(dir, "replay")
+	if os.Getenv("VERIF_ALT") != "" {
+		replayDir = filepath.Join(dir, ".build", "alt-replay")
+	}
+	_ = os.MkdirAll(replayDir, 0o755)
 	for i := range viols {
 		v := &viols[i]
 		name := fmt.Sprintf("%s-%s-s%d-%d.json", prop, sanitize(v.Variant), first.Seed, i)
-		path := filepath.Join(dir, "replay", name)
+		path := filepath.Join(replayDir, name)
 		b, _ := json.MarshalIndent(map[string]any{
 			"property": prop, "seed": first.Seed, "tier": first.Tier, "variant": v.Variant,
 			"case": v.Case, "sig": v.Sig, "what": v.What, "witness": v.Witness,
@@ -699,6 +703,10 @@ func finish(dir string, parts []part) int {
 		ev["assumptions"] = []string{}
 	}
 	evPath := filepath.Join(dir, "evidence", prop+".json")
+	if os.Getenv("VERIF_ALT") != "" {
+		// run against a scratch copy of juniper (VERIF_REPO): never touch the real evidence
+		evPath = filepath.Join(dir, ".build", "alt-evidence", prop+".json")
+	}
 	if replaying {
 		evPath = filepath.Join(dir, ".build", prop+".replay-evidence.json")
 	}
